@@ -96,6 +96,7 @@ POOL = 48
 BEING_DELETED = __import__('re').compile(r'being delete', __import__('re').I)
 DROP_TRANSIENT = __import__('re').compile(r'being delete|retention policy not found', __import__('re').I)
 BARRIER_TIMEOUT = 240  # generous: on the shared build machine the whole server process was seen frozen for minutes
+FAILED_BARRIER_TIMEOUT = 60
 COMPACT_TIMEOUT = 420
 QUIET_BEFORE_KILL = 4.0
 START_WAIT = 180  # a start with several hundred databases on the loaded build machine
@@ -147,6 +148,7 @@ class Run:
         self.removed = 0
         self.drops_done = []  # [(n, kind)] acknowledged drops
         self.setup_done = False
+        self.again_sent = False  # the points written after the drops were sent once more after the restart
         self.rewritten = []  # [(db, rp, rows)] written by the steps after a drop (sent once more after the restart)
         self.log = []  # executed statements (for the violation detail)
         self.offset = 0
@@ -239,7 +241,9 @@ class Driver:
         invalidated with a lag). Only "not yet there" is waited for; a time-out is a tool error, never a verdict."""
         t0 = time.time()
         missing = None
-        while time.time() - t0 < BARRIER_TIMEOUT:
+        # a history that already has a violation only waits long enough to tell lag from divergence
+        limit = FAILED_BARRIER_TIMEOUT if r.failed else BARRIER_TIMEOUT
+        while time.time() - t0 < limit:
             missing = None
             for db, rp, mst in containers:
                 # cold: the barrier after the initial load asks no tag-filter query, so that the index's tag-filter
@@ -266,7 +270,7 @@ class Driver:
             self.rep.violation("reference_rows_never_visible_after_divergence", "%s :: barrier :: %s" % (r.key, missing[3]),
                                "history %s: after an earlier violation in this history, rows of the reference did not become "
                                "visible within %ds\n  shape %s on %s.%s.%s\n  got: %s\n  statements: %s" % (
-                                   r.key, BARRIER_TIMEOUT, missing[3], missing[0], missing[1], missing[2],
+                                   r.key, FAILED_BARRIER_TIMEOUT, missing[3], missing[0], missing[1], missing[2],
                                    json.dumps(M.jsonable(missing[4]))[:600],
                                    " | ".join(x for x in r.log if not x.startswith("write"))), dict(r.h))
             raise Abandon()
@@ -405,6 +409,8 @@ class Driver:
         overwrite, only points that are still live in the reference). The shapes that return rows and the listings must not
         change. (The count shapes are left out at this checkpoint: a point that is in a file and in the memtable is counted
         twice by count() without hint - C09's subject, see notes.)"""
+        if r.failed:
+            return  # the history has already left the reference (a violation is recorded); repeating writes adds nothing
         sent = False
         for db, rp, rows in r.rewritten:
             live = [(mst, series, ts, f) for mst, series, ts, f in rows
@@ -415,6 +421,7 @@ class Driver:
         if not sent:
             return
         self.rep.count("histories_with_rewrite_after_restart", 1)
+        r.again_sent = True
         self.visible(r, [(r.db, r.trp, r.m)])
         for name, q, kind, params in self.shapes(r, r.trp, r.m, True):
             if kind in ("rows", "grouped") or kind in M.LISTINGS:
@@ -475,6 +482,11 @@ class Driver:
                 self.one_read(r, label, prefix + name, q, kind, params, db, rp, mst)
 
     def one_read(self, r, label, name, q, kind, params, db, rp, mst):
+        if r.again_sent and kind in ("count", "gcount", "buckets") and (db, rp, mst) == (r.db, r.trp, r.m):
+            # after the repeated write the same point exists in two places (file + memtable, or two files after a clean
+            # restart) and count() counts it twice - C09's subject, not a statement about drops
+            self.rep.count("count_shapes_skipped_after_repeated_write", 1)
+            return
         lo, exp = self.bounds(r, db, rp, mst, kind, params)
         st, js = self.srv.query(q, db=db)
         ok, got = M.normalise(kind, st, js)
@@ -901,6 +913,7 @@ class Rep:
         self.d = dict(evaluations=0, samples=[], violations=[], n_violations=0, counters={}, exhaustive=True, notes=[],
                       _distinct=set())
         self.per_kind = {}
+        self.known = checklib.load_known(CID)
         self.all = []  # debugging aid: dumped to .build/C13/violations-<tier>.json
 
     def evaluation(self):
@@ -924,11 +937,15 @@ class Rep:
     def violation(self, kind, key, detail, replay):
         with self.lock:
             self.d["n_violations"] += 1
-            n = self.per_kind.get(kind, 0)
-            self.per_kind[kind] = n + 1
+            # the front end only sees the kept violations: those that match a known-finding signature and those that do
+            # not are capped separately, so that a flood of known instances of a kind cannot push a new one out
+            matched = checklib.match_known(dict(kind=kind, key=key), self.known) is not None
+            slot = (kind, matched)
+            n = self.per_kind.get(slot, 0)
+            self.per_kind[slot] = n + 1
             c = self.d["counters"]
             c["violations_" + kind] = c.get("violations_" + kind, 0) + 1
-            if n < 25:
+            if n < (10 if matched else 25):
                 self.d["violations"].append(dict(kind=kind, key=key, detail=detail, replay=replay))
             if n < 2000:
                 self.all.append(dict(kind=kind, key=key, detail=detail))
@@ -949,7 +966,7 @@ def run_server(tier, name, hs, scratch, rep):
         return
     srv = Server(CID, scratch, name=name, extra=SRV_EXTRA[name])
     srv.build()
-    srv.start()
+    srv.start(wait_s=START_WAIT)
     try:
         special = [h["special"] for h in hs if h.get("special")]
         runs = [Run(h) for h in hs if not h.get("special")]
